@@ -111,7 +111,7 @@ theorem univX : Univ2 KX WX id uX νX := by
     show ∀ i ∈ a.ins, i.prev < a.id
     rcases ha with rfl | rfl | rfl | rfl | rfl | rfl | rfl | rfl | rfl <;> decide
   · intro a b _ _ h; exact h
-  · intro (a : Nat) (b : Nat) (v : Nat) (w : Nat) ha hb h
+  · intro (a : Nat) (b : Nat) (v : Nat) (w : Nat) ha hb _ _ h
     have h' : a + 16 * v = b + 16 * w := h
     have pa := play a ha
     have pb := play b hb
